@@ -136,3 +136,11 @@ Lemma w_trailing : decode_t S_types_Transaction (w_tx_re ++ [0]) = None /\
   exists v, decode_stream_t S_types_Transaction (w_tx_re ++ [0]) = Some (v, [0]) /\
             decode_t S_types_Transaction w_tx_re = Some v.
 Proof. split; [vm_compute; reflexivity|]. eexists. split; vm_compute; reflexivity. Qed.
+
+(* the custom decoders that peek Stream.Kind() (ignoring its error) before
+   decoding the same value: they depend on the size-bound error being sticky.
+   Pinned, so that a new one is seen and gets the size-field attacks on its
+   outer header. *)
+Lemma peeking_decoders_exact : peeking_decoders =
+  [("core/types/block.go", "Block.DecodeRLP"); ("core/types/transaction.go", "Transaction.DecodeRLP")]%string.
+Proof. vm_compute. reflexivity. Qed.
